@@ -86,6 +86,16 @@ def command_events(ctx, thorough, only=None):
                 if i >= (skip + nreads) * 4:
                     break
                 o.write(line)
+    # read pairs from a tandem repeat (forward U-V-U, reverse V-U-V): two overlap positions share the same number of
+    # 4-mers and the same overlap length, so the fast alignment heuristic has a tie to break
+    comp = {"a": "t", "c": "g", "g": "c", "t": "a"}
+    rc = lambda x: "".join(comp[c] for c in reversed(x))
+    with open(os.path.join(d, "F.fq"), "a") as ff, open(os.path.join(d, "R.fq"), "a") as fr:
+        for k in range(8):
+            u = "".join(ctx.rng.choice("acgt") for _ in range(50))
+            v = "".join(ctx.rng.choice("acgt") for _ in range(50))
+            ff.write("@tandem%d\n%s\n+\n%s\n" % (k, u + v + u, "I" * 150))
+            fr.write("@tandem%d\n%s\n+\n%s\n" % (k, rc(v + u + v), "I" * 150))
     sheet = os.path.join(vlib.REPO, "sample", "wolf_diet_ngsfilter.txt")
     b = lambda c: os.path.join(bindir, c)
     r = ctx.run_many([{"argv": [b("obipairing"), "--max-cpu", "1", "-F", "F.fq", "-R", "R.fq"], "cwd": d}], timeout=300)[0]
@@ -152,6 +162,24 @@ def command_events(ctx, thorough, only=None):
                                   "nbytes": len(r["out"]), "stderr": r["err"][-300:] if r["rc"] else ""})
             seen.add(key)
         evs[("obigrep", "stress")] = e
+        jobs += sj
+    # the same for a command whose workers empty most batches (the writer meets the batches in completion order)
+    if not only or only == "obipcr":
+        nrep = 1500 if thorough else 300
+        argvp = [b("obipcr"), "--max-cpu", "4", "--batch-size", "2", "--forward", "TTAGATACCCCACTATGC", "--reverse",
+                 "TAGAACAGGCTCCTCTAG", "-e", "2", "-l", "10", "-L", "300", "ali.fq"]
+        sj = [{"argv": argvp, "cwd": d} for _ in range(nrep)]
+        sres = ctx.run_many(sj, timeout=120, workers=24)
+        e = {"cmd": "obipcr", "opts": "-e 2 -l 10 -L 300 ali.fq (x%d repetitions)" % nrep, "runs": []}
+        seen = set()
+        for i, r in enumerate(sres):
+            sha = hashlib.sha1(r["out"]).hexdigest()
+            key = (r["rc"], sha)
+            if i == 0 or key not in seen:
+                e["runs"].append({"cfg": "cpu=4 bs=2 rep=%d" % i, "rc": r["rc"], "hung": 1 if r["timeout"] else 0, "sha": sha,
+                                  "nbytes": len(r["out"]), "stderr": r["err"][-300:] if r["rc"] else ""})
+            seen.add(key)
+        evs[("obipcr", "stress")] = e
         jobs += sj
     ctx.extra["command_runs"] = len(jobs)
     return list(evs.values())
